@@ -51,6 +51,7 @@ func regionContent(step, n int) []byte {
 
 type writerHooks struct {
 	afterOp func(step int, op WOp, live [][]byte, owned [][]byte) *evid.Violation
+	target  []byte // set by the interpreter: the caller's initial slice of a bytes writer (full capacity)
 }
 
 func overlaps(a, b []byte) bool {
@@ -77,6 +78,9 @@ func runWriterHistory(c *WriterCase, cv *cov, hooks *writerHooks) (v *evid.Viola
 			}
 		}
 		initial = append([]byte(nil), target...)
+		if hooks != nil {
+			hooks.target = target[:cap(target)]
+		}
 		w = bufiox.NewBytesWriter(&target)
 	} else {
 		w = bufiox.NewDefaultWriter(sink)
@@ -85,6 +89,9 @@ func runWriterHistory(c *WriterCase, cv *cov, hooks *writerHooks) (v *evid.Viola
 	var owned [][]byte    // caller-owned WriteBinary payload buffers (full capacity) and pristine copies
 	var pristine [][]byte //
 	var failed error
+	// bytes writer: what a Flush published through the target now belongs to the caller; later operations
+	// of the writer must not change it
+	var published, publishedWant []byte
 	flushes := 0
 	unflushed := len(initial)
 	var sawGrowth, sawLazyGrowth, sawFailThenCalls, sawMultiFlush bool
@@ -270,6 +277,10 @@ func runWriterHistory(c *WriterCase, cv *cov, hooks *writerHooks) (v *evid.Viola
 					v = evid.Failf("step %d: WrittenLen=%d right after a successful Flush", step, got)
 					return
 				}
+				if c.Bytes && len(exp) > 0 {
+					published = target // alias, on purpose
+					publishedWant = append([]byte(nil), target...)
+				}
 				if flushes > 0 {
 					sawMultiFlush = true
 				}
@@ -279,6 +290,10 @@ func runWriterHistory(c *WriterCase, cv *cov, hooks *writerHooks) (v *evid.Viola
 			case "len":
 			default:
 				continue
+			}
+			if published != nil && !bytes.Equal(published, publishedWant) {
+				v = evid.Failf("step %d %s(%d): the bytes published through the target by an earlier Flush were changed by a later operation of the writer (first difference at %d)", step, op.K, op.N, firstDiff(published, publishedWant))
+				return
 			}
 			if failed == nil {
 				if got := w.WrittenLen(); got != unflushed {
@@ -372,7 +387,7 @@ func genWriterCase(t *rapid.T) WriterCase {
 		}
 	} else {
 		c.FailAt = rapid.SampledFrom([]int{0, 0, 1, 2, 3, 4}).Draw(t, "failAt")
-		c.Short = rapid.SampledFrom([]int{0, 1, 100}).Draw(t, "short")
+		c.Short = rapid.SampledFrom([]int{0, 1, 100, -1}).Draw(t, "short")
 	}
 	c.Ops = genWriterOps(t, rapid.SampledFrom([]int{12, 30, 30, 80}).Draw(t, "maxOps"))
 	return c
@@ -442,8 +457,8 @@ func TestC05_Exhaustive(t *testing.T) {
 			}
 		}
 		for k := 0; k <= nfl; k++ {
-			for _, short := range []int{0, 1} {
-				if k == 0 && short == 1 {
+			for _, short := range []int{0, 1, -1} {
+				if k == 0 && short != 0 {
 					continue
 				}
 				run(WriterCase{FailAt: k, Short: short, Ops: progs[i]}, b)
